@@ -153,6 +153,28 @@ CHECKS = {
             "Partial: index/shape/union-membership/context refusals are decision logic compared by the tie (exception class and "
             "buffer image at the raise), not theorems.",
             "7/C11"),
+    "C08": ("Lean 4 proof: two's-complement relative-offset codec (encode/decode round trip over Int), null encodings, growth as prefix "
+            "preservation, fresh placement = allocator theorem; executable heap model (several buffers/contexts, existing objects as "
+            "values) tied on the bytes of all buffers after every step; reference-validity oracle over generated histories",
+            "Kernel-checked theorems: C08_null / C08_union_null (None is -2^63 and reads back None, member index -1), C08_alias / "
+            "C08_union_member (binding an object at `target` of the same buffer makes the reference denote exactly `target`, for all "
+            "slot/target addresses below 2^62 - so reads and writes through the reference are reads and writes of the original's "
+            "bytes), C08_growth_deref / C08_growth_value (a reference and its referent's value are unchanged by growth), "
+            "C08_copy_fresh (referents created for plain data or foreign objects are placed by the allocator: in bounds and disjoint "
+            "from every live object).",
+            "Partial: the invariant over whole histories (every non-null reference of every live object resolves to a live object "
+            "of the recorded member type) is established by the oracle on generated histories, not by induction in Lean.",
+            "7/C08"),
+    "C09": ("Lean 4 proof: window-translation lemma for patch application + the agreement-strengthened round trip => the byte copy "
+            "of a written object reads as the same value anywhere; frame lemma for independence; executable heap model tied on all "
+            "buffers; oracle for equality, disjointness, write isolation and referent sharing/duplication",
+            "Kernel-checked theorems (reference-free types, any nesting): C09_equal_partial (the byte copy of a constructed object into "
+            "ANY destination memory at ANY offset with room - same buffer, other buffer, other context - reads as the source's value, "
+            "and the source still does), C09_source_unaffected (writes inside the disjoint extent of the copy never change what the "
+            "source reads).",
+            "Partial: types holding references are rebuilt field-/item-wise (same referent in the same buffer, duplicated referent "
+            "otherwise): executable model + oracle only.",
+            "7/C09"),
 }
 
 NOT_YET = {
